@@ -69,6 +69,8 @@ FIXED = {
                'uniques': [{'cls': 'P', 'name': 'I1', 'attrs': ['Nr']}, {'cls': 'Q', 'name': 'I1', 'attrs': ['Nr']}]},
 }
 
+FIXED['assoc2'] = FIXED['assoc']
+
 # initial instances (class names) and the alphabet of concrete calls per fixed schema;
 # indices refer to creation order
 FIXED_INIT = {
@@ -77,13 +79,23 @@ FIXED_INIT = {
     'many2one_int': [['A', {'Nr': 1, 'Name': 'a'}], ['A', {'Nr': 2, 'Name': "b'"}], 'B', 'B'],
     'reflexive': ['P', 'P', 'P'],
     'assoc': ['X', 'X', 'Y', 'L', 'L'],
+    'assoc2': ['X', 'Y', 'Y', 'L', 'L'],
     'subsuper': ['S', 'S', 'T1', 'T2', 'T1'],
     'shared': [['P', {'Nr': 0}], ['P', {'Nr': 5}], ['Q', {'Nr': 0}], ['Q', {'Nr': 5}], 'C', 'C'],
 }
 
 
+# calls made before the enumerated history starts: one X with two link instances, the first of them linked to a Y
+FIXED_PROLOGUE = {'assoc2': [['relate', 3, 0, 5, None, False], ['relate', 3, 1, 5, None, False], ['relate', 4, 0, 5, None, False]]}
+
+
 def fixed_alphabet(name):
     R, U, D = 'relate', 'unrelate', 'delete'
+    if name == 'assoc2':
+        return [[R, 4, 2, 5, None, False], [R, 4, 1, 5, None, False], [R, 3, 2, 5, None, False], [R, 2, 4, 5, '', True],
+                [U, 3, 1, 5, None, False], [U, 4, 0, 5, None, False], [U, 4, 2, 5, None, False], [U, 0, 3, 5, None, True],
+                [R, 0, 1, 5, None, False],
+                [D, 3, True], [D, 0, True], [D, 1, False], [D, 4, True], ['new', 'L']]
     if name in ('one2one', 'one2many', 'many2one_int'):
         rel = FIXED[name]['assocs'][0]['rel']
         ops = []
@@ -346,7 +358,7 @@ def run(ctx):
     def fixed_body(case):
         name = case['fixed']
         try:
-            rej, acc, kinds, _r = run_history(FIXED[name], FIXED_INIT[name], case['ops'], case)
+            rej, acc, kinds, _r = run_history(FIXED[name], FIXED_INIT[name], FIXED_PROLOGUE.get(name, []) + case['ops'], case)
         except Violation:
             raise
         except Exception as e:
@@ -370,6 +382,6 @@ MIN_FRACTIONS = {'has-rejected-call': 0.15}
 def replay(case):
     if 'fixed' in case:
         name = case['fixed']
-        run_history(FIXED[name], FIXED_INIT[name], case['ops'], case)
+        run_history(FIXED[name], FIXED_INIT[name], FIXED_PROLOGUE.get(name, []) + case['ops'], case)
     else:
         body_factory(Res())(case)
